@@ -90,7 +90,8 @@ def run(ctx):
         for a in rng:
             # drawn from the transcript wrapper's RNG
             t = a.get('rng')
-            derived = t is not None and any(x.tag == 'call' and (x[1].endswith('finalize') or x[1].endswith('::build_rng')) for x in walk(t))
+            builder_fns = {b.path for (b, bb, tt) in ctx.facts.callers_decl.get('merlin::TranscriptRngBuilder::finalize', [])}
+            derived = t is not None and any(x.tag == 'call' and (x[1].endswith('TranscriptRngBuilder::finalize') or x[1] in builder_fns) for x in walk(t))
             rep.check(derived, 'R-C13-1', key + '/rng-source', 'role %s draws from the transcript RNG' % r.name, 'role %s draws from %s' % (r.name, short(t, 120) if t is not None else None), r.where)
     rep.check(labels == EXPECTED, 'R-C13-1', 'R-C13-1/labels', 'labels per role are %s (pairwise distinct)' % {k: v.decode() for k, v in labels.items() if v},
               'labels per role are %s, expected %s' % (labels, EXPECTED), ctx.where(p))
